@@ -428,7 +428,7 @@ class ConfigParser(object):
         if len(cp[override.section]) == 0:
           cp.remove_section(override.section)
       else:
-        cp[override.section][override.key] = override.value
+        self._set_item(cp, override)
 
     # Add additional values
     for override in additional:
@@ -439,9 +439,16 @@ class ConfigParser(object):
 
       if not cp.has_section(override.section):
         cp.add_section(override.section)
-      cp[override.section][override.key] = override.value
+      self._set_item(cp, override)
 
     return cp
+
+  def _set_item(self, cp, override):
+    try:
+      cp[override.section][override.key] = override.value
+    except ValueError as e:
+      # configparser refuses a value whose place-holder syntax is wrong (e.g. a lone '$') as it is set
+      raise ConfigParserException("Problem with place-holder in [{}] '{}': {}".format(override.section, override.key, e))
 
   def _check_for_duplicates(self):
     self._check_for_duplicate_pairs()
